@@ -37,7 +37,7 @@ class Workload:
     close on several subchannels, in both directions."""
 
     def __init__(self, w, tape, max_subs=3, max_ops=12, names=("p1", "p2"),
-                 big=True, listen_late=False):
+                 big=True, listen_late=False, pausing=False):
         self.w = w
         self.tape = tape
         if w.opts.get("_tier") == "thorough" and names:
@@ -69,6 +69,12 @@ class Workload:
                     ops.append(("close", tape.choose(max(1, nsub), "ch")))
                 else:
                     ops.append(("aclose", tape.choose(3, "ach")))
+                if pausing and tape.choose(3, "pz") == 0:
+                    # slow applications: stop the flow on a subchannel for a
+                    # while (resumed later, at the latest when faults stop)
+                    ops.append((tape.pick(("pause", "apause", "apause",
+                                           "resume", "aresume"), "pzk"),
+                                tape.choose(3, "pzh")))
             if listen_late:
                 # listeners may be registered after OPENs arrive
                 from checks.common_a import interleave
@@ -80,6 +86,10 @@ class Workload:
 
     def done(self):
         return all(self.pc[n] >= len(self.scripts[n]) for n in ("A", "B"))
+
+    def resume_all(self):
+        for side in self.w.sides:
+            self._run(side, ("resume_all",))
 
     def _accepted(self, side):
         return [p for p in side.protocols if p.role == "acceptor" and p.made]
@@ -200,6 +210,13 @@ def install_greeter(w, tape):
             if getattr(p, "reacted", False) or p.closed_local or p.lost:
                 return
             k = tape.choose(8, "react")
+            if k == 3 and getattr(w, "reactive_pause", False) and p.made \
+                    and not getattr(p, "app_paused", False):
+                # a consumer that cannot keep up says so from dataReceived
+                p.transport.pauseProducing()
+                p.app_paused = True
+                w.sim.note("probe.pause_from_dataReceived")
+                return
             if k >= 3:
                 return
             p.reacted = True
